@@ -410,7 +410,30 @@ G_PROBE = {"sim": "G", "conn": "jax", "mode": "eager", "d": 2, "cutoff": 3, "dty
                      {"g": "Beamsplitter", "modes": [1, 0], "p": {"theta": 0.3, "phi": 0.9}}]}
 # regression probes that keep the bucket of the search part (fixed findings)
 PASSTHROUGH = {"regress:G:jax:fidelity+wigner_function", "probe:graph-modes",
-               "probe:primitives"}
+               "probe:primitives", "probe:tf:graph-modes:float32:unaffected"}
+F32_BUCKET = "C09:PF:tf:graph-modes:float32:active-gate-matrix:raises"
+# Config(dtype=float32) + TensorFlow graph modes: these steps produce complex128 / float64
+# intermediates (python complex scalars, float64 lookup tables) and write them into
+# complex64 tensors (TensorArray.write, tensor_scatter_nd_update, loop-carried variables),
+# which TensorFlow refuses and NumPy casts silently.  Measured one by one; the other
+# instructions (all preparations incl. complex superpositions, Phaseshifter, Beamsplitter,
+# MachZehnder, Fourier, Interferometer, Kerr, CrossKerr, SNAP) work.
+F32_GRAPH_GATES = MATRIX_GATES | EULER_GATES | {"Beamsplitter5050"}
+_F32_PARAMS = {
+    "Beamsplitter5050": {}, "Squeezing": {"r": 0.2, "phi": 0.4}, "QuadraticPhase": {"s": 0.15},
+    "Squeezing2": {"r": 0.2, "phi": 0.4}, "GaussianTransform": {"seed": 5, "rmax": 0.3},
+    "Displacement": {"r": 0.2, "phi": 0.4}, "PositionDisplacement": {"x": 0.2},
+    "MomentumDisplacement": {"p": 0.1}, "CubicPhase": {"gamma": 0.05},
+}
+_CSUP = {"kind": "superposition", "terms": [[[1, 0], [0.6, 0.0]], [[0, 0], [0.0, 0.8]]]}
+
+
+def _f32(mode, name):
+    k = progs.ARITY[name] or 2
+    return {"sim": "PF", "conn": "tf", "mode": mode, "d": 2, "cutoff": 3, "dtype": "f32",
+            "hbar": 2.0, "prep": {"kind": "number", "occ": [1, 0]},
+            "gates": [{"g": name, "modes": [1, 0][:k], "p": _F32_PARAMS[name]}]}
+
 
 
 def _pf(conn, mode, d, cutoff, prep, gates):
@@ -470,16 +493,24 @@ REGIONS = {
          "prep": {"kind": "number", "occ": [1, 0]},
          "gates": [{"g": "GaussianTransform", "modes": [1, 0], "p": {"seed": 5, "rmax": 0.3}}]},
     ],
-    "C09:PF:tf:graph-modes:float32:active-gate-matrix:raises": [
-        {"sim": "PF", "conn": "tf", "mode": "decorated", "d": 1, "cutoff": 3, "dtype": "f32",
-         "prep": {"kind": "vacuum"},
-         "gates": [{"g": "Displacement", "modes": [0], "p": {"r": 0.2, "phi": 0.1}}]},
-        {"sim": "PF", "conn": "tf", "mode": "function", "d": 1, "cutoff": 3, "dtype": "f32",
-         "prep": {"kind": "vacuum"},
-         "gates": [{"g": "Squeezing", "modes": [0], "p": {"r": 0.2, "phi": 0.1}}]},
-        {"sim": "PF", "conn": "tf", "mode": "decorated", "d": 1, "cutoff": 3, "dtype": "f32",
-         "prep": {"kind": "vacuum"},
-         "gates": [{"g": "CubicPhase", "modes": [0], "p": {"gamma": 0.05}}]},
+    # every instruction class of the region, in both graph modes (function: traceable ones)
+    F32_BUCKET: [
+        _f32(mode, name) for mode in ("decorated", "function") for name in sorted(F32_GRAPH_GATES)
+        if mode == "decorated" or name in TRACEABLE[("PF", "tf", "function")]
+    ],
+    # ... and everything else of the float32 instruction set passes in the graph modes
+    "probe:tf:graph-modes:float32:unaffected": [
+        {**_pf("tf", mode, 2, 3, _CSUP, gates), "dtype": "f32"}
+        for mode in ("decorated", "function")
+        for gates in (
+            [{"g": "Phaseshifter", "modes": [1], "p": {"phi": 0.4}}, _BS, _IF],
+            [{"g": "Fourier", "modes": [0], "p": {}},
+             {"g": "Kerr", "modes": [1], "p": {"xi": 0.3}},
+             {"g": "CrossKerr", "modes": [1, 0], "p": {"xi": 0.3}},
+             {"g": "SNAP", "modes": [1], "p": {"seed": 762}}]
+            + ([{"g": "MachZehnder", "modes": [0, 1], "p": {"int_": 0.3, "ext": 0.9}}]
+               if mode == "decorated" else []),
+        )
     ],
     "C09:PF:tf:cutoff1:squeezing:tf.range": [
         {"sim": "PF", "conn": "tf", "mode": "eager", "d": 1, "cutoff": 1, "dtype": "f64",
@@ -500,8 +531,8 @@ def region_of(case):
                                       or gates.count("Squeezing2") > 1):
             return SQ2_BUCKET
         if (case["mode"] in ("decorated", "function") and case.get("dtype") == "f32"
-                and names & (MATRIX_GATES | EULER_GATES)):
-            return "C09:PF:tf:graph-modes:float32:active-gate-matrix:raises"
+                and names & F32_GRAPH_GATES):
+            return F32_BUCKET
     return None
 
 
@@ -690,7 +721,7 @@ def program_case(draw, conn, mode, sims):
     case["dtype"] = draw(st.sampled_from(["f64", "f64", "f64", "f32"])) \
         if sim in ("PF", "G", "P") else "f64"
     if (conn == "tf" and compiled and case["dtype"] == "f32"
-            and any(g["g"] in MATRIX_GATES | EULER_GATES for g in case["gates"])):
+            and any(g["g"] in F32_GRAPH_GATES for g in case["gates"])):
         case["dtype"] = "f64"  # region of a confirmed finding, see REGIONS
     if heavy and case["dtype"] == "f64":
         case["trace_arrays"] = draw(st.booleans())
